@@ -147,13 +147,14 @@ class CaseObs:
 
 def execute(built, runs, ctl, gate_events=0.0, gate_saves=0.0, write_once=True,
             collab_faults=None, extra_kwargs=None, start_gated=False, on_quiescent=None,
-            collect_stuck=True, sequential=False, charts=None, pool_cap=None, shared_meta=False):
+            collect_stuck=True, sequential=False, charts=None, pool_cap=None, shared_meta=False, gate_events2=0.0):
     """runs: list of (tag, val).  Overlapping by default; sequential=True runs them in order."""
     st = setup_engine()
     obs = CaseObs()
     sess = rt.Session(built.prog, gate_events=gate_events, gate_saves=gate_saves,
                       rng=random.Random(ctl.rng.random()), collab_faults=collab_faults)
     sess.write_once = write_once
+    sess.gate_events2 = gate_events2
     rt.set_session(sess)
     ros = [RunObs(t, v) for t, v in runs]
     obs.runs = ros
